@@ -561,8 +561,15 @@ func c19Run(in c19Input) (g c19Group) {
 	if in.Collision {
 		tags = append(tags, "two-labels-share-a-point")
 	}
-	if in.OrderDependent && in.Collision {
-		tags = append(tags, "C19 order dependence with colliding ring points")
+	if in.Collision {
+		// signature for KNOWN_FINDINGS.json: the owner of the arc below a point shared by two labels
+		// depends on how the unstable sort left the tie (listing order, presence of other nodes)
+		for _, f := range g.findings {
+			if f.what == "order" || f.what == "removal" {
+				tags = append(tags, "ketama-colliding-points-tie-order")
+				break
+			}
+		}
 	}
 	g.in = in
 	g.c = rig.Case{Desc: in, Coq: sb.String(), Nontrivial: n >= 2 && g.nBoundary >= 3 && len(ring0) > 0, Tags: tags}
